@@ -193,6 +193,7 @@ func main() {
 		tails = append(tails, "?", "#", "?%zz")
 		schemes = append(schemes, "https:", "https:/", "t.me://", ":")
 	}
+	var allLinks []string
 	var paths [][]string
 	var gen func(cur []string, d int)
 	gen = func(cur []string, d int) {
@@ -214,6 +215,7 @@ func main() {
 						for _, tail := range tails {
 							l := link{sc, h, p, segs, trail, tail}
 							s := l.String()
+							allLinks = append(allLinks, s)
 							var res [2][2]string
 							for perm := 0; perm < 2; perm++ {
 								sched.MapPerm = perm
@@ -254,6 +256,22 @@ func main() {
 		}
 	}
 	sched.MapPerm = 0
+	// history independence: the same links resolved again in reverse order must give the same answers (a result
+	// that depends on what was resolved before - a cache under too small a key, a reused buffer - shows up here)
+	first := make(map[string][2]string, len(allLinks))
+	for _, s := range allLinks {
+		k, v, _, _, _ := observe(s)
+		first[s] = [2]string{k, v}
+	}
+	for i := len(allLinks) - 1; i >= 0; i-- {
+		s := allLinks[i]
+		k, v, _, _, _ := observe(s)
+		if first[s] != [2]string{k, v} {
+			run.Violation("history-dependent|"+first[s][0]+"->"+k, fmt.Sprintf("Resolve(%q) gave (%s,%q) in one order of calls and (%s,%q) in another", s, first[s][0], first[s][1], k, v), map[string]any{"Link": s, "Perm": 0})
+			break
+		}
+	}
+	run.Set("reverse_order_pass", len(allLinks))
 	run.Set("alphabet", map[string]any{"schemes": schemes, "hosts": hosts, "ports": ports, "segments": segA, "max_segments": maxSeg, "tails": tails})
 	run.Finish()
 }
